@@ -775,6 +775,14 @@ Definition attrs_b (s : session) (resp : response) : bool :=
   && subseq_b attribute_eqb (ss_custom s) (a_attributes a)
   && group_attr_ok s (a_attributes a).
 
+(* the attribute statement is exactly the list MakeAssertion builds from this session for the
+   routed descriptor — names, friendly names, formats, value lists (an attribute with no value is
+   a difference), order; in particular eduPersonPrincipalName falls back to the mail only when
+   the session has no principal name *)
+Definition attrs_exact_b (d : spsso) (s : session) (resp : response) : bool :=
+  list_eqb attribute_eqb (a_attributes (fst (inner_assertion resp)))
+           (session_attributes (choose_attr_service (attr_services d)) s).
+
 Definition signed_b (cfg : idpcfg) (resp : response) : bool :=
   let '(a, sa) := inner_assertion resp in
   let sr := rs_sig resp in
@@ -791,11 +799,10 @@ Definition c06_spec (c : c06case) : bool :=
   | O6Form action resp relay =>
       match c06_route c with
       | None => false
-      | Some (_, _, _, e) =>
+      | Some (_, _, d, e) =>
           scoping_b (c6_cfg c) (c6_md c) e (c06_request c) (c6_relay c) action resp relay
           && times_b (c6_cfg c) (c06_request c) (c6_now c) (c6_tnow c) resp
-          && attrs_b (c6_sess c) resp
-          && signed_b (c6_cfg c) resp
+          && (attrs_b (c6_sess c) resp && signed_b (c6_cfg c) resp && attrs_exact_b d (c6_sess c) resp)
       end
   end.
 Definition check_c06 := check_cases c06_agree c06_spec.
@@ -858,6 +865,12 @@ Definition c08_spec (c : c06case) : bool :=
       | _, _ => true
       end
   | O6Form _ resp _ =>
+      (* what is recovered (with the SP key, when encrypted) verifies and is the session's *)
+      match c06_route c with
+      | Some (_, _, d, _) => attrs_b (c6_sess c) resp && signed_b (c6_cfg c) resp && attrs_exact_b d (c6_sess c) resp
+      | None => false
+      end
+      &&
       match c08_kds c with
       | None => false
       | Some l =>
